@@ -224,6 +224,7 @@ func S10(maxPacket, ops, digests, dups, holds int) *Scenario {
 		Digests: [][2]int{{1, 0}, {0, 1}}, MaxDigests: digests,
 		Perms: "id", MaxDups: dups, MaxInflight: 3, MaxHolds: holds,
 		Joins: [][2]int{{0, 1}, {1, 0}, {2, 1}, {0, 2}}, MaxJoins: 2,
+		Echo: []int{0}, MaxEcho: 1,
 		Oracles: OracleSet{C02: true, C14: true},
 	}
 }
